@@ -669,6 +669,10 @@ func (c *cmafIngester) sendMediaSegment(ctx context.Context, wg *sync.WaitGroup,
 			return
 		}
 	}
+	if code != 0 { // A status code is configured for this segment (statuscode_ in the URL). Nothing has been written.
+		c.log.Info("segment not sent due to configured status code", "path", segPath, "code", code)
+		return
+	}
 	if c.useChunked {
 		<-writeMoreCh   // Capture final message
 		nrBytesCh <- -1 // Signal that we are done to Read (that reads and pushes to remote)
